@@ -38,6 +38,11 @@ type Float struct {
 
 type SymStr struct{ B []*Term } // each BV8
 
+// SymFloat is a float64 known to be exactly the (signed 64-bit) integer T, |T| < 2^53.
+// It only arises from Duration.Seconds() on whole-second durations and can only be
+// converted back to an integer.
+type SymFloat struct{ T *Term }
+
 type SymPtr struct {
 	Elems []Value // window; every element is a *Term of the same sort
 	Idx   *Term   // BV64, assumed (checked by the creator) < len(Elems)
